@@ -113,6 +113,19 @@ impl Property for C06 {
                 }
             }
         }
+        for (t, n) in dense_lengths(tier) {
+            if !sh.mine() {
+                continue;
+            }
+            let a = dense_value(n);
+            for k in [1usize, 64, n / 2, n] {
+                for left in [true, false] {
+                    if !f(C06Case { a: Operand::canon(t, a.clone()), k, left }) {
+                        return;
+                    }
+                }
+            }
+        }
         for t in [TID_D, TID_A, 18u8] {
             let c = fixed_cap(t).unwrap_or(usize::MAX);
             for n in LONG_LENS {
